@@ -39,6 +39,16 @@ template <class T>
 static inline void verif_release(std::vector<T> &v) {
   v._M_impl._M_start = nullptr; v._M_impl._M_finish = nullptr; v._M_impl._M_end_of_storage = nullptr;
 }
+// std::vector<bool> (libstdc++ layout: start/finish are {word pointer, bit offset}) over harness-owned words, nbits <= 64*nwords
+static inline void verif_adopt_bits(std::vector<bool> &v, unsigned long *words, size_t nbits, size_t nwords) {
+  v._M_impl._M_start._M_p = words; v._M_impl._M_start._M_offset = 0;
+  v._M_impl._M_finish._M_p = words + nbits / 64; v._M_impl._M_finish._M_offset = (unsigned)(nbits % 64);
+  v._M_impl._M_end_of_storage = words + nwords;
+}
+static inline void verif_release_bits(std::vector<bool> &v) {
+  v._M_impl._M_start._M_p = nullptr; v._M_impl._M_start._M_offset = 0;
+  v._M_impl._M_finish._M_p = nullptr; v._M_impl._M_finish._M_offset = 0; v._M_impl._M_end_of_storage = nullptr;
+}
 #endif
 // fill a buffer with symbolic bytes (kept out of line so that its loop has a stable name for --unwindset)
 extern "C" __attribute__((noinline)) inline void verif_fill(void *p, size_t n) {
